@@ -257,7 +257,15 @@ func (c *Check) collect() {
 			if j.KeyOf != nil {
 				key = j.KeyOf(f)
 			}
-			c.Findings = append(c.Findings, &Finding{Key: key, Note: f.Note, Msg: f.Msg, Func: j.Func, Pkg: j.Pkg, Model: cleanModel(f.Model), Nondet: f.Nondet, Site: f.Site, Kind: "assert", Confirmed: "unknown"})
+			fd := &Finding{Key: key, Note: f.Note, Msg: f.Msg, Func: j.Func, Pkg: j.Pkg, Model: cleanModel(f.Model), Nondet: f.Nondet, Site: f.Site, Kind: "assert", Confirmed: "unknown"}
+			if strings.HasPrefix(f.Msg, "[monitor] ") && (f.Result == "concrete" || f.Result == "sat") {
+				// an assertion about the engine's ghost monitors (stores into pre-existing memory, locks held): the
+				// native build has no such monitor, so there is nothing to replay; the observation was made on a
+				// feasible path of the real code as executed by the engine
+				fd.Kind, fd.Confirmed = "side", "yes"
+				fd.ReplayOut = "monitor observation on a feasible path (" + f.Result + "); not replayable natively"
+			}
+			c.Findings = append(c.Findings, fd)
 		}
 		for _, f := range r.Inconclusive {
 			if !quiet {
